@@ -9,7 +9,7 @@ use crate::session::{assemble_fresh as assemble, assemble_here, Asm};
 use crate::util;
 use serde_json::{json, Value};
 
-pub const SOURCES: [(&str, &str); 26] = [
+pub const SOURCES: [(&str, &str); 28] = [
     ("validA", "start add r0 r0 #1\nloop br loop\ndata .fill x10\n ld r1 data\n"),
     ("validB-reuses-labels", "data .fill x5\nstart ld r0 data\nloop add r0 r0 #-1\nbrp loop\nhalt\n"),
     ("lexer-failure-after-label", "start add r0 r0 #1\n .bogus\n"),
@@ -38,6 +38,9 @@ pub const SOURCES: [(&str, &str); 26] = [
     ("parse-orig-twice", ".orig x3000\nstart halt\n.orig x4000\n"),
     ("parse-label-at-end", "start halt\nloop\n"),
     ("first-word-is-instruction", "add r0 r0 #1\nloop brnzp loop\nhalt\n"),
+    // an in-range reference and an out-of-range one on the same statement numbers (1 and 2)
+    ("valid-refs-on-lines-1-and-2", "br near\nld r0 near\nnear halt\n"),
+    ("emission-failure-on-line-2", "add r0 r0 r0\nbr far\n.blkw x200\nfar halt\n"),
 ];
 
 fn summarize(a: &Asm) -> String {
@@ -153,7 +156,7 @@ pub fn run(ctx: &Ctx) -> i32 {
         ctx,
         acc,
         Level { category: "model_checking", bfs: Some((n, n, n, max_len as u64)) },
-        "every sequence of length 1..=max_len over 26 sources (valid ones, and one failing at every error site of the assembler) (valid, failing at each stage, sharing and re-using label names) assembled on one thread with reset_state()+reclaim between elements; each element's result (image, origin, breakpoints, spans, or diagnostic incl. rendering) compared with the same source on a fresh thread; states = sequences (no merging: equality of the merged states is the property itself); distinct_nontrivial = sequences of length >= 2 that agreed",
+        "every sequence of length 1..=max_len over 28 sources (valid ones, and one failing at every error site of the assembler) (valid, failing at each stage, sharing and re-using label names) assembled on one thread with reset_state()+reclaim between elements; each element's result (image, origin, breakpoints, spans, or diagnostic incl. rendering) compared with the same source on a fresh thread; states = sequences (no merging: equality of the merged states is the property itself); distinct_nontrivial = sequences of length >= 2 that agreed",
         true,
         &["ok-after-failure", "failure-after-ok", "some-source-ok", "stage-lex", "stage-parse", "stage-backpatch", "stage-emit"],
         &["a fresh OS thread has the thread-local state of a fresh process", "diagnostic rendering is deterministic for equal (report, source)"],
